@@ -269,5 +269,127 @@ theorem norm_cls_idem (ir : IR) : norm .cls (norm .cls ir) = norm .cls ir := by
 theorem norm_func_idem (i : Bool) (ir : IR) : norm (.func i) (norm (.func i) ir) = norm (.func i) ir := by
   simp only [norm, mapParams_idem _ normFuncParam_idem]
 
+/-! #### argparse and docstring kinds -/
+
+theorem argFill_default_typ (t : Str) (p q : Param) (hd : q.doc = p.doc) (ht : q.typ = p.typ) :
+    argFill t q = argFill t p := by
+  unfold argFill
+  cases p; cases q
+  simp only at hd ht
+  subst hd; subst ht
+  split
+  · rfl
+  · split
+    · rfl
+    · split <;> rfl
+
+theorem argFill_idem (t : Str) (p : Param) : argFill t (argFill t p) = argFill t p :=
+  argFill_default_typ t p (argFill t p) (argFill_doc t p) (argFill_typ t p)
+
+/-- the default `argFill` writes is none-like only in its last case, where a second pass writes it again -/
+theorem normArgparseParam_fill (t : Str) (p : Param) (ht : p.typ = some t) :
+    normArgparseParam (argFill t p) = argFill t p := by
+  have htt : (argFill t p).typ = some t := by rw [argFill_typ, ht]
+  unfold normArgparseParam
+  rw [htt]
+  cases hd : (argFill t p).default with
+  | none => exact argFill_idem t p
+  | some v =>
+    by_cases hn : isNoneVal v = true
+    · simp only [hn, if_true]; exact argFill_idem t p
+    · simp [hn]
+
+theorem normArgparseParam_idem (p : Param) :
+    normArgparseParam (normArgparseParam p) = normArgparseParam p := by
+  cases ht : p.typ with
+  | none =>
+    have : normArgparseParam p = p := by unfold normArgparseParam; rw [ht]
+    rw [this, this]
+  | some t =>
+    cases hd : p.default with
+    | none =>
+      have : normArgparseParam p = argFill t p := by unfold normArgparseParam; rw [ht, hd]
+      rw [this]; exact normArgparseParam_fill t p ht
+    | some v =>
+      by_cases hn : isNoneVal v = true
+      · have : normArgparseParam p = argFill t p := by unfold normArgparseParam; rw [ht, hd]; simp [hn]
+        rw [this]; exact normArgparseParam_fill t p ht
+      · have : normArgparseParam p = p := by unfold normArgparseParam; rw [ht, hd]; simp [hn]
+        rw [this, this]
+
+theorem isNoneVal_sNone : isNoneVal (.str sNone) = true := by decide
+
+theorem normDocEntry_idem (st : DocStyle) (n : Str) (p : Param) :
+    normDocEntry st n (normDocEntry st n p) = normDocEntry st n p := by
+  cases hd : p.default with
+  | none =>
+    by_cases hk : kwargsName n = true
+    · have : normDocEntry st n p = { p with default := some vNoneStr } := by
+        unfold normDocEntry; simp [hd, hk]
+      rw [this]; unfold normDocEntry; simp [isNoneVal_vNoneStr, hk]
+    · have : normDocEntry st n p = p := by unfold normDocEntry; simp [hd, hk]
+      rw [this, this]
+  | some v =>
+    by_cases hn : isNoneVal v = true
+    · by_cases hk : kwargsName n = true
+      · have : normDocEntry st n p = { p with default := some vNoneStr } := by
+          unfold normDocEntry; simp [hd, hn, hk]
+        rw [this]; unfold normDocEntry; simp [isNoneVal_vNoneStr, hk]
+      · cases st with
+        | rest =>
+          have : normDocEntry .rest n p = { p with default := some (.str sNone) } := by
+            unfold normDocEntry; simp [hd, hn, hk]
+          rw [this]; unfold normDocEntry; simp [isNoneVal_sNone, hk]
+        | numpydoc =>
+          have : normDocEntry .numpydoc n p = { p with default := some vNoneStr } := by
+            unfold normDocEntry; simp [hd, hn, hk]
+          rw [this]; unfold normDocEntry; simp [isNoneVal_vNoneStr, hk]
+        | google =>
+          have : normDocEntry .google n p = { p with default := some vNoneStr } := by
+            unfold normDocEntry; simp [hd, hn, hk]
+          rw [this]; unfold normDocEntry; simp [isNoneVal_vNoneStr, hk]
+    · have : normDocEntry st n p = p := by unfold normDocEntry; simp [hd, hn]
+      rw [this, this]
+
+theorem norm_argparse_idem (ir : IR) : norm .argparse (norm .argparse ir) = norm .argparse ir := by
+  simp only [norm, mapParams_idem _ normArgparseParam_idem]
+  cases hr : ir.returns with
+  | none => rfl
+  | some r => by_cases h : r.default.isSome = true <;> simp [h]
+
+theorem norm_doc_idem (st : DocStyle) (ir : IR) : norm (.doc st) (norm (.doc st) ir) = norm (.doc st) ir := by
+  simp only [norm, List.map_map]
+  congr 1
+  · apply List.map_congr_left
+    intro kp _
+    simp [normDocEntry_idem]
+  · cases ir.returns <;> simp [normDocEntry_idem]
+
+/-- **C08 in the model, every kind**: a second conversion through the same kind changes nothing -/
+theorem norm_idem (k : Kind) (ir : IR) : norm k (norm k ir) = norm k ir := by
+  cases k with
+  | cls => exact norm_cls_idem ir
+  | func i => exact norm_func_idem i ir
+  | argparse => exact norm_argparse_idem ir
+  | doc st => exact norm_doc_idem st ir
+
+/-- … and any number of further conversions through the same kind: the chain `k, k, …, k` (n+1 times),
+    when it stays inside the kind's domain, ends where the first conversion ended -/
+theorem chain_replicate_idem (k : Kind) : ∀ (n : Nat) (ir out : IR),
+    chain (List.replicate (n + 1) k) ir = some out → out = norm k ir
+  | 0, ir, out, h => by
+    simp only [List.replicate, chain] at h
+    by_cases hd : dom k ir = true
+    · simp [hd] at h; exact h.symm
+    · simp [hd] at h
+  | n + 1, ir, out, h => by
+    rw [List.replicate_succ] at h
+    simp only [chain] at h
+    by_cases hd : dom k ir = true
+    · simp only [hd, if_true] at h
+      have := chain_replicate_idem k n (norm k ir) out h
+      rw [this, norm_idem]
+    · simp [hd] at h
+
 end Kinds
 end Py
